@@ -700,7 +700,7 @@ func evalTcb(t *Verdict, m map[string]any, q *Quote, sgx *SgxValues) {
 		ver := q.TeeTcbSvn[1]
 		// Intel's algorithm names the identity "TDX_" + two hex digits of the version byte (case is not judged here)
 		ids := map[string]bool{fmt.Sprintf("TDX_%02x", ver): true, fmt.Sprintf("TDX_%02X", ver): true}
-		found, good := false, false
+		found, matched, good := false, false, false
 		for _, id := range arr(m, "tdxModuleIdentities") {
 			im, _ := id.(map[string]any)
 			if !ids[str(im, "id")] {
@@ -709,12 +709,17 @@ func evalTcb(t *Verdict, m map[string]any, q *Quote, sgx *SgxValues) {
 			found = true
 			ls := arr(im, "tcbLevels")
 			k := firstIsvLevel(ls, int64(q.TeeTcbSvn[0]))
+			if k >= 0 {
+				matched = true
+			}
 			if k >= 0 && statusOf(ls, k) == "UpToDate" {
 				good = true
 			}
 		}
 		if !found {
 			t.add("C04", "module-identity-missing", "")
+		} else if !matched {
+			t.add("C04", "no-matching-module-level", "")
 		} else if !good {
 			t.add("C04", "module-level-not-uptodate", "")
 		}
